@@ -35,7 +35,9 @@ ASSUMPTIONS = [
     "design of the terminated wrapper)",
 ]
 MUST_REACH = {"flag_pcode_pairs_covered": 2048, "compared": 3000, "reencoded_identical": 3000, "mutants_compared": 300,
-              "pcodes_covered": 4, "te_face_bitfields_checked": 100, "fast_results_scribbled": 100}
+              "pcodes_covered": 4, "te_face_bitfields_checked": 100, "fast_results_scribbled": 100,
+              "reencoded_identical_plain_data_form": 3000, "cache_files_read": 5, "cache_entries_at_size_limits": 5,
+              "compared_from_cache_file": 50}
 
 SER = T.ObjectUpdateCompressedDataSerializer
 TEMPLATE = SER.TEMPLATE
@@ -113,6 +115,9 @@ def compare(ctx, payload: bytes, origin, wit_extra, generated_value=None):
                       "normalize_object_update_compressed_data raised on an accepted payload", dict(wit, exc=repr(e)[:300]))
         return False
     ctx.count("normalized", 1 if n1 else 0)
+    if origin == "cache-file":
+        ctx.count("compared_from_cache_file")
+        return True
     if origin == "generated":
         ctx.count("compared")
         if generated_value is not None and gen_spec.canon(generated_value) != tcanon:
@@ -131,9 +136,91 @@ def compare(ctx, payload: bytes, origin, wit_extra, generated_value=None):
                           dict(wit, back=back[:600]))
             return False
         ctx.count("reencoded_identical")
+        # the template's other face, the plain-data form it shows in the message text: what it decodes there re-encodes to
+        # the payload as well
+        try:
+            pv = SER.deserialize(_BLOCK, payload, pod=True)
+            backp = bytes(SER.serialize(_BLOCK, pv))
+        except Exception as e:
+            ctx.violation("reencode-raises:plain-data-form", "decoding to / re-encoding from the template's plain-data form raised",
+                          dict(wit, exc=repr(e)[:300]))
+            return False
+        if backp != payload:
+            ctx.violation("reencode-differs:plain-data-form", "re-encoding the template's plain-data form does not reproduce the "
+                          "payload", dict(wit, back=backp[:600], value=repr(pv)[:400]))
+            return False
+        ctx.count("reencoded_identical_plain_data_form")
+        if len(_KEPT) < 400 and len(payload) <= 10000:
+            _KEPT.append(payload)
     else:
         ctx.count("mutants_compared")
     return True
+
+
+_KEPT = []
+
+
+def cache_file_route(ctx, rng):
+    """The object tracker also gets payloads out of the viewer's on-disk object cache.  A cache file is written (independent
+    writer) with generated payloads, among them entries at the size limits of the format (1, 9999 and 10000 bytes of data are
+    valid; 0 and 10001 are recorded without data); every valid entry must come back byte-for-byte and decode like any other."""
+    import os
+    import shutil
+    import tempfile
+    import uuid
+    from ..vocache_fs import slc_bytes
+    from hippolyzer.lib.proxy.vocache import RegionViewerObjectCache
+    if not _KEPT:
+        return
+    tmp = tempfile.mkdtemp(prefix="hvc13_")
+    try:
+        for round_ in range(ctx.pick(6, 40)):
+            payloads = [rng.choice(_KEPT) for _ in range(rng.randint(3, 25))]
+            entries = []
+            specials = [b"\x01", bytes(rng.getrandbits(8) for _ in range(9999)), bytes(rng.getrandbits(8) for _ in range(10000)),
+                        b"", bytes(10001)]
+            rng.shuffle(specials)
+            for i, pl in enumerate(payloads):
+                entries.append((1000 + i, rng.getrandbits(32), pl))
+                if specials and rng.random() < 0.4:
+                    entries.append((5000 + len(specials), rng.getrandbits(32), specials.pop()))
+            cache_id = uuid.UUID(int=rng.getrandbits(128))
+            path = os.path.join(tmp, f"objects_{round_}.slc")
+            with open(path, "wb") as f:
+                f.write(slc_bytes(cache_id, entries, declared=len(entries) + rng.choice([0, 0, 3])))
+            wit = {"entries": [(l, c, len(d)) for l, c, d in entries]}
+            try:
+                cache = RegionViewerObjectCache.from_file(path)
+            except Exception as e:
+                ctx.violation("cache-file-raises", "reading a well-formed object cache file raised", dict(wit, exc=repr(e)[:300]))
+                return
+            ctx.count("cache_files_read")
+            if str(cache.cache_id) != str(cache_id):
+                ctx.violation("cache-file-id", "cache id read from the file differs", dict(wit, got=str(cache.cache_id)))
+                return
+            for (local, crc, data) in entries:
+                got = cache.lookup_object_data(local, crc)
+                valid = 0 < len(data) <= 10000
+                if valid and (got is None or bytes(got) != data):
+                    ctx.violation("cache-entry-lost:size-" + ("limit" if len(data) in (1, 9999, 10000) else "ordinary"),
+                                  "a valid entry of an object cache file does not come back byte-for-byte",
+                                  dict(wit, local=local, size=len(data), got=None if got is None else len(got)))
+                    return
+                if not valid and got:
+                    ctx.violation("cache-entry-invented", "an invalid (dataless) cache entry came back with data",
+                                  dict(wit, local=local, size=len(data)))
+                    return
+                if valid:
+                    ctx.count("cache_entries_read_back")
+                    if len(data) in (1, 9999, 10000):
+                        ctx.count("cache_entries_at_size_limits")
+                    if cache.lookup_object_data(local, crc ^ 1) is not None:
+                        ctx.violation("cache-entry-wrong-crc", "a cache entry was returned for another CRC", dict(wit, local=local))
+                        return
+                    if 1000 <= local < 5000:
+                        compare(ctx, bytes(got), "cache-file", {"local": local})
+    finally:
+        shutil.rmtree(tmp, ignore_errors=True)
 
 
 def mutate(rng, p: bytes):
@@ -255,6 +342,7 @@ def run(ctx):
     for _ in range(ctx.pick(40, 400)):
         flags = rng.getrandbits(32)
         one_case(ctx, flags, rng.choice(pcodes), rng.getrandbits(31))
+    cache_file_route(ctx, rng)
     ctx.flag("exhaustive", True)
 
 
